@@ -601,6 +601,9 @@ func runC07(ctx *Ctx) *Result {
 	}
 	rng := NewRng(ctx.Seed)
 	c07UnitCorr(ctx, res, rng.Fork())
+	if res.Broken == "" {
+		c07CvsUnit(ctx, res, NewRng(ctx.Seed^0xc07c5))
+	}
 	type treeInfo struct {
 		g   *GenTree
 		reg c07Regress
@@ -760,6 +763,9 @@ func runC07(ctx *Ctx) *Result {
 		res.Broken = fmt.Sprintf("only %d diagnostics in %d cases: the generated trees are too clean to show an order", d, len(cases))
 	}
 	c07AuditNumbers(ctx, res)
+	if res.Broken == "" {
+		c07CwdLinkStage(ctx, res) // after the floors: its recorded finding must not switch them off
+	}
 	res.Assumptions = []string{
 		"same user, same environment, same wall-clock year (pkglint reads user.Current; nothing else from the environment)",
 		"the trees are not modified between the runs (cases with -F run on identical copies)",
